@@ -1,6 +1,6 @@
 #!/bin/bash
 # every registered thorough check under a wall budget (default 120 s each): tools/run_thorough.sh [budget_s]
-cd /verif
+cd "$(dirname "$(readlink -f "$0")")/.."
 b=${1:-120}
 for id in $(python3 -c "import json; print(' '.join(c['property_id'] for c in json.load(open('MANIFEST.json'))['checks']))"); do
   out=$(VERIF_BUDGET_S=$b ./check $id --tier thorough 2>&1); rc=$?
